@@ -33,7 +33,7 @@ def big(name, queries, lo, hi, instances, per, variants=("node/", "anyid", "mixi
 
 CONFIGS[("C07", "quick")] += [big("big-get-60", ("get",), 10, 60, 48, 40), big("big-get-300", ("get",), 100, 300, 6, 30, variants=("node/",))]
 CONFIGS[("C08", "quick")] += [big("big-glob-60", ("glob",), 10, 60, 48, 40), big("big-glob-150", ("glob",), 80, 150, 6, 20, variants=("node/",))]
-CONFIGS[("C07", "thorough")] += [big("big-get-80", ("get",), 10, 80, 400, 60), big("big-get-400", ("get",), 100, 400, 24, 40, variants=("node/",))]
+CONFIGS[("C07", "thorough")] += [big("big-get-80", ("get",), 10, 80, 400, 60), big("big-get-300t", ("get",), 100, 300, 24, 40, variants=("node/",))]
 CONFIGS[("C08", "thorough")] += [big("big-glob-80", ("glob",), 10, 80, 400, 60), big("big-glob-200", ("glob",), 80, 200, 24, 30, variants=("node/",))]
 
 CHECKS = dict(invariants=("Lem_Get", "Lem_Match"), properties=("Thm_Get", "Thm_Glob"))
